@@ -7,6 +7,7 @@ use kvarn::prelude::*;
 use kvarn::limiting::{Action as LimitAction, Manager as LimitManager};
 use std::net::{IpAddr, Ipv4Addr, Ipv6Addr, SocketAddr};
 use std::sync::atomic::{AtomicU32, Ordering};
+use std::sync::Arc;
 use std::time::{Duration, Instant};
 
 /// (L (N max) (N check_every) (L (N kind) (N v)))  — v in milliseconds
@@ -225,35 +226,50 @@ fn runtime() -> &'static tokio::runtime::Runtime {
     })
 }
 
-static PORT_COUNTER: AtomicU32 = AtomicU32::new(0);
-/// Ports below the ephemeral range, spread by pid so that parallel harness processes do not meet
-/// (kvarn sets SO_REUSEPORT: two servers on one port would not fail to bind).
-fn next_port() -> u16 {
-    let n = PORT_COUNTER.fetch_add(1, Ordering::Relaxed);
-    (10_000 + (std::process::id() % 220) * 100 + n % 100) as u16
+/// A port nobody else can get while the reservation lives.  kvarn binds with SO_REUSEADDR + SO_REUSEPORT, so
+/// two servers of one user on one port would share the incoming connections instead of failing to bind.  The
+/// kernel never hands a port that has a bound socket to another `bind(.., 0)` (and the fixed ports other
+/// harnesses compute are below the ephemeral range), while kvarn's explicit bind with SO_REUSEPORT next to
+/// these sockets (same options, same user, never listening) is allowed.
+struct Reservation {
+    port: u16,
+    _v4: socket2::Socket,
+    _v6: Option<socket2::Socket>,
 }
 
-async fn port_is_free(port: u16) -> bool {
-    match tokio::time::timeout(
-        Duration::from_secs(2),
-        tokio::net::TcpStream::connect(SocketAddr::new(IpAddr::V4(Ipv4Addr::LOCALHOST), port)),
-    )
-    .await
-    {
-        Ok(Err(e)) => e.kind() == std::io::ErrorKind::ConnectionRefused,
-        _ => false,
+fn reserve_port() -> Option<Reservation> {
+    use socket2::{Domain, Protocol, Socket, Type};
+    for _ in 0..30 {
+        let v4 = Socket::new(Domain::IPV4, Type::STREAM, Some(Protocol::TCP)).ok()?;
+        v4.set_reuse_address(true).ok()?;
+        v4.set_reuse_port(true).ok()?;
+        v4.bind(&SocketAddr::new(IpAddr::V4(Ipv4Addr::UNSPECIFIED), 0).into()).ok()?;
+        let port = v4.local_addr().ok()?.as_socket()?.port();
+        // the same port on [::] (dual stack, as kvarn's IPv6 listener); a machine without IPv6 has none
+        let v6 = match Socket::new(Domain::IPV6, Type::STREAM, Some(Protocol::TCP)) {
+            Ok(v6) => {
+                let _ = v6.set_reuse_address(true);
+                let _ = v6.set_reuse_port(true);
+                if v6.bind(&SocketAddr::new(IpAddr::V6(Ipv6Addr::UNSPECIFIED), port).into()).is_err() {
+                    continue; // somebody holds [::]:port — another port
+                }
+                Some(v6)
+            }
+            Err(_) => None,
+        };
+        return Some(Reservation { port, _v4: v4, _v6: v6 });
     }
+    None
 }
 
 async fn connect_from(local: Ipv4Addr, port: u16) -> std::io::Result<tokio::net::TcpStream> {
     let socket = tokio::net::TcpSocket::new_v4()?;
     socket.bind(SocketAddr::new(IpAddr::V4(local), 0))?;
-    match tokio::time::timeout(
-        Duration::from_secs(3),
-        socket.connect(SocketAddr::new(IpAddr::V4(Ipv4Addr::LOCALHOST), port)),
-    )
-    .await
-    {
+    connect_socket(socket, port).await
+}
+
+async fn connect_socket(socket: tokio::net::TcpSocket, port: u16) -> std::io::Result<tokio::net::TcpStream> {
+    match tokio::time::timeout(Duration::from_secs(5), socket.connect(SocketAddr::new(IpAddr::V4(Ipv4Addr::LOCALHOST), port))).await {
         Ok(r) => r,
         Err(_) => Err(std::io::Error::new(std::io::ErrorKind::TimedOut, "connect timed out")),
     }
@@ -265,15 +281,115 @@ enum Answer {
     Stalled,
 }
 
+// ---- TLS + HTTP/2 client (bind kind 3): the same histories over one h2 connection per client connection ----
+struct Tls {
+    key: Arc<rustls::sign::CertifiedKey>,
+    client_h2: Arc<rustls::ClientConfig>,
+}
+fn tls() -> &'static Tls {
+    static TLS: std::sync::OnceLock<Tls> = std::sync::OnceLock::new();
+    TLS.get_or_init(|| {
+        use rustls::pki_types::PrivateKeyDer;
+        let provider = Arc::new(rustls::crypto::ring::default_provider());
+        let ss = rcgen::generate_simple_self_signed(vec![HOSTNAME.to_string()]).expect("self-signed certificate");
+        let cert = ss.cert.der().clone();
+        let pk = PrivateKeyDer::Pkcs8(ss.key_pair.serialized_der().to_vec().into());
+        let pk = rustls::crypto::ring::sign::any_supported_type(&pk).expect("key type");
+        let key = Arc::new(rustls::sign::CertifiedKey::new(vec![cert.clone()], pk));
+        let mut roots = rustls::RootCertStore::empty();
+        roots.add(cert).expect("root");
+        let mut c = rustls::ClientConfig::builder_with_provider(provider)
+            .with_safe_default_protocol_versions()
+            .expect("versions")
+            .with_root_certificates(roots)
+            .with_no_client_auth();
+        c.alpn_protocols = vec![b"h2".to_vec()];
+        Tls { key, client_h2: Arc::new(c) }
+    })
+}
+
+/// One client connection: HTTP/1.1 over TCP, or HTTP/2 over TLS.
+enum Client {
+    H1(tokio::net::TcpStream),
+    H2(h2::client::SendRequest<Bytes>),
+    /// the TLS or h2 handshake did not complete because the server closed the connection
+    Closed,
+}
+
+impl Client {
+    async fn open(stream: tokio::net::TcpStream, secure: bool, deadline: Duration) -> Result<Client, Answer> {
+        if !secure {
+            return Ok(Client::H1(stream));
+        }
+        let name = rustls::pki_types::ServerName::try_from(HOSTNAME).unwrap();
+        let s = match tokio::time::timeout(deadline, tokio_rustls::TlsConnector::from(tls().client_h2.clone()).connect(name, stream)).await {
+            Err(_) => return Err(Answer::Stalled),
+            Ok(Err(_)) => return Ok(Client::Closed),
+            Ok(Ok(s)) => s,
+        };
+        match tokio::time::timeout(deadline, h2::client::Builder::new().handshake::<_, Bytes>(s)).await {
+            Err(_) => Err(Answer::Stalled),
+            Ok(Err(_)) => Ok(Client::Closed),
+            Ok(Ok((send, conn))) => {
+                tokio::spawn(async move {
+                    let _ = conn.await;
+                });
+                Ok(Client::H2(send))
+            }
+        }
+    }
+    async fn exchange(&mut self, host: &str, deadline: Duration) -> Answer {
+        match self {
+            Client::H1(stream) => exchange(stream, host, deadline).await,
+            Client::Closed => Answer::Cut,
+            Client::H2(send) => {
+                let uri = format!("https://{host}/");
+                let req = match Request::builder().method("GET").uri(uri).body(()) {
+                    Ok(r) => r,
+                    Err(_) => return Answer::Cut,
+                };
+                let mut ready = match tokio::time::timeout(deadline, send.clone().ready()).await {
+                    Err(_) => return Answer::Stalled,
+                    Ok(Err(_)) => return Answer::Cut,
+                    Ok(Ok(s)) => s,
+                };
+                let (resp, _stream) = match ready.send_request(req, true) {
+                    Ok(r) => r,
+                    Err(_) => return Answer::Cut,
+                };
+                let resp = match tokio::time::timeout(deadline, resp).await {
+                    Err(_) => return Answer::Stalled,
+                    Ok(Err(_)) => return Answer::Cut,
+                    Ok(Ok(r)) => r,
+                };
+                let status = resp.status().as_u16();
+                let mut body = resp.into_body();
+                loop {
+                    match tokio::time::timeout(deadline, body.data()).await {
+                        Err(_) => return Answer::Stalled,
+                        Ok(None) => break,
+                        Ok(Some(Err(_))) => return Answer::Cut,
+                        Ok(Some(Ok(chunk))) => {
+                            let _ = body.flow_control().release_capacity(chunk.len());
+                        }
+                    }
+                }
+                Answer::Status(status)
+            }
+        }
+    }
+}
+
 /// Sends one GET and reads one framed response (head + content-length bytes).
-async fn exchange(stream: &mut tokio::net::TcpStream) -> Answer {
+/// `Stalled`: the connection stayed open and nothing (more) arrived for `deadline`.
+async fn exchange(stream: &mut tokio::net::TcpStream, host: &str, deadline: Duration) -> Answer {
     use tokio::io::{AsyncReadExt, AsyncWriteExt};
-    if stream.write_all(b"GET / HTTP/1.1\r\nhost: localhost\r\n\r\n").await.is_err() {
+    let request = format!("GET / HTTP/1.1\r\nhost: {host}\r\n\r\n");
+    if stream.write_all(request.as_bytes()).await.is_err() {
         return Answer::Cut;
     }
     let mut buf: Vec<u8> = Vec::new();
     let mut tmp = [0u8; 4096];
-    let deadline = Duration::from_secs(8);
     loop {
         if let Some(p) = buf.windows(4).position(|w| w == b"\r\n\r\n") {
             let head = String::from_utf8_lossy(&buf[..p]).to_ascii_lowercase();
@@ -310,6 +426,27 @@ struct SConf {
     bind: u128,
     /// finite reset times in (0, FAR_MS) are crossed in real time
     sensitive: bool,
+    /// further hosts ("h1.test", "h2.test", ...), each with its own `LimitManager::new`
+    extra: Vec<(usize, usize, f64)>,
+}
+
+/// the host a request names: 0 = the first host, k = the k-th further host, 99 = a name no host has
+fn host_name(target: u8) -> String {
+    match target {
+        0 => HOSTNAME.to_string(),
+        99 => "nobody.test".to_string(),
+        k => format!("h{k}.test"),
+    }
+}
+
+/// What the history consists of.
+enum Ev {
+    /// address index, wait before (ms), the host each request names, repetitions
+    Conn(u8, u64, Vec<u8>, u64),
+    /// the next `n` calls of accept() on the listener fail (EMFILE), then the next connection is accepted
+    Errs(u64),
+    /// `shutdown()` of the server's shutdown manager; waits until the listeners are closed
+    Shutdown,
 }
 
 fn apply_setters(m: &mut LimitManager, c: (usize, usize, f64)) {
@@ -320,22 +457,116 @@ fn apply_setters(m: &mut LimitManager, c: (usize, usize, f64)) {
 /// reset time is crossed (the generators keep every nominal window age 1.5 s away from it).
 const SERVER_LATE: Duration = Duration::from_millis(1400);
 
-/// One attempt; `None` = the harness could not run the case (port trouble, stall, too late).
-async fn serve_once(sc: &SConf, conns: &[(u8, u64, u64, u64)]) -> Option<X> {
-    let mut port = next_port();
-    let mut tries = 0;
-    while !port_is_free(port).await {
-        port = next_port();
-        tries += 1;
-        if tries > 50 {
-            return None;
+/// One attempt to run a history.
+enum Attempt {
+    /// everything was observed
+    Done(X),
+    /// the server stopped reacting (connection open, request sent, neither an answer nor a close): the
+    /// outcome up to and including the marker `(L (N 4) ..)`
+    Stalled(X),
+    /// the harness could not run the case: 1 = too late for the schedule, 2 = no port / the server never came up,
+    /// 3 = the client side failed (socket, bind, connect other than "refused")
+    Trouble(u128),
+}
+
+// ---- accept errors: with the cargo feature `hooks` the accept loop reports every iteration ("al.top"), every
+// accepted peer ("al.got") and its end ("al.exit"); the hook counts and, at the n-th failed iteration, gives the
+// file descriptors back.
+#[cfg(feature = "hooks")]
+mod inject {
+    use std::sync::atomic::{AtomicBool, AtomicI64, AtomicU64, Ordering};
+    use std::sync::Mutex;
+    static PORT: AtomicI64 = AtomicI64::new(-1);
+    pub static ARMED: AtomicBool = AtomicBool::new(false);
+    static WANT: AtomicU64 = AtomicU64::new(0);
+    /// failed calls of accept() since the limit was lowered, as seen at the top of the loop
+    pub static FAILS: AtomicU64 = AtomicU64::new(0);
+    /// the previous iteration of the watched loop has not accepted anybody (yet)
+    static LAST_TOP: AtomicBool = AtomicBool::new(false);
+    static SOFT: AtomicU64 = AtomicU64::new(0);
+    static HARD: AtomicU64 = AtomicU64::new(0);
+    static GOT: Mutex<Vec<i64>> = Mutex::new(Vec::new());
+
+    fn set_soft(v: u64) -> bool {
+        let lim = libc::rlimit { rlim_cur: v as libc::rlim_t, rlim_max: HARD.load(Ordering::SeqCst) as libc::rlim_t };
+        unsafe { libc::setrlimit(libc::RLIMIT_NOFILE, &lim) == 0 }
+    }
+    pub fn restore() {
+        if ARMED.swap(false, Ordering::SeqCst) {
+            set_soft(SOFT.load(Ordering::SeqCst));
         }
     }
+    /// Watches the accept loop of the (one, IPv4) listener on `port` from now on.
+    pub fn watch(port: u16) {
+        static ONCE: std::sync::Once = std::sync::Once::new();
+        ONCE.call_once(|| {
+            let mut lim = libc::rlimit { rlim_cur: 0, rlim_max: 0 };
+            unsafe { libc::getrlimit(libc::RLIMIT_NOFILE, &mut lim) };
+            SOFT.store(lim.rlim_cur as u64, Ordering::SeqCst);
+            HARD.store(lim.rlim_max as u64, Ordering::SeqCst);
+            kvarn::verif::set_hook(Some(std::sync::Arc::new(|name: &'static str, value: i64| match name {
+                "al.top" if value == PORT.load(Ordering::SeqCst) => {
+                    // an iteration that starts although the one before accepted nobody: that call of accept() failed
+                    if LAST_TOP.swap(true, Ordering::SeqCst) && ARMED.load(Ordering::SeqCst) {
+                        let k = FAILS.fetch_add(1, Ordering::SeqCst) + 1;
+                        if k >= WANT.load(Ordering::SeqCst) {
+                            restore();
+                        }
+                    }
+                }
+                "al.got" => {
+                    LAST_TOP.store(false, Ordering::SeqCst);
+                    GOT.lock().unwrap_or_else(std::sync::PoisonError::into_inner).push(value)
+                }
+                _ => {}
+            })));
+        });
+        LAST_TOP.store(false, Ordering::SeqCst);
+        PORT.store(i64::from(port), Ordering::SeqCst);
+        GOT.lock().unwrap_or_else(std::sync::PoisonError::into_inner).clear();
+    }
+    /// From now on accept() fails (EMFILE: no descriptor is left), `n` times.
+    pub fn arm(n: u64) -> bool {
+        WANT.store(n, Ordering::SeqCst);
+        FAILS.store(0, Ordering::SeqCst);
+        ARMED.store(true, Ordering::SeqCst);
+        if set_soft(0) {
+            true
+        } else {
+            ARMED.store(false, Ordering::SeqCst);
+            false
+        }
+    }
+    pub fn was_accepted(peer_port: u16) -> bool {
+        GOT.lock().unwrap_or_else(std::sync::PoisonError::into_inner).contains(&i64::from(peer_port))
+    }
+}
+
+/// restores the descriptor limit whatever happens
+struct LimitGuard;
+impl Drop for LimitGuard {
+    fn drop(&mut self) {
+        #[cfg(feature = "hooks")]
+        inject::restore();
+    }
+}
+
+const HOSTNAME: &str = "localhost";
+
+async fn serve_once(sc: &SConf, evs: &[Ev], deadline: Duration) -> Attempt {
+    let Some(reservation) = reserve_port() else { return Attempt::Trouble(2) };
+    let port = reservation.port;
+    let _guard = LimitGuard;
+    #[cfg(feature = "hooks")]
+    inject::watch(port);
     let started = Instant::now();
     let mut ext = Extensions::empty();
     ext.add_prepare_single("/", kvarn::prepare!(_, _, _, _, { FatResponse::no_cache(Response::new(Bytes::from_static(b"ok"))) }));
-    let mut host = Host::unsecure("localhost", "/nonexistent/kvh-c12", ext, host::Options::default());
+    let mut host = Host::unsecure(HOSTNAME, "/nonexistent/kvh-c12", ext, host::Options::default());
     host.disable_fs_cache().disable_response_cache();
+    if sc.bind == 3 {
+        *host.certificate.write().unwrap() = Some(tls().key.clone());
+    }
     match sc.path {
         0 => host.limiter = LimitManager::new(sc.host.0, sc.host.1, sc.host.2),
         // the normal way: the Host comes with LimitManager::default(), the setters tune it
@@ -352,63 +583,178 @@ async fn serve_once(sc: &SConf, conns: &[(u8, u64, u64, u64)]) -> Option<X> {
         }
     };
     let mut builder = HostCollection::builder().insert(host);
+    for (k, c) in sc.extra.iter().enumerate() {
+        let mut ext = Extensions::empty();
+        ext.add_prepare_single("/", kvarn::prepare!(_, _, _, _, { FatResponse::no_cache(Response::new(Bytes::from_static(b"ok"))) }));
+        let mut h = Host::unsecure(host_name(k as u8 + 1), "/nonexistent/kvh-c12", ext, host::Options::default());
+        h.disable_fs_cache().disable_response_cache();
+        h.limiter = LimitManager::new(c.0, c.1, c.2);
+        builder = builder.insert(h);
+    }
     if let Some(pre) = pre {
         builder = builder.set_pre_host_limiter(pre);
     }
     let data = builder.build();
-    let mut descriptor = PortDescriptor::unsecure(port, data);
+    let secure = sc.bind == 3;
+    let mut descriptor = if secure { PortDescriptor::new(port, data) } else { PortDescriptor::unsecure(port, data) };
     descriptor = match sc.bind {
-        0 => descriptor.ipv4_only(),
+        0 | 3 => descriptor.ipv4_only(),
         2 => descriptor.ipv6_only(),
         _ => descriptor,
     };
-    let shutdown = RunConfig::new().bind(descriptor).disable_ctl().execute().await;
+    // a bind that fails (the UDP port of the QUIC listener of a secure descriptor is not reserved) panics inside execute
+    let shutdown = match tokio::spawn(async move { RunConfig::new().bind(descriptor).disable_ctl().execute().await }).await {
+        Ok(s) => s,
+        Err(_) => return Attempt::Trouble(2),
+    };
 
     let mut results = Vec::new();
     let mut first = true;
-    let mut failed = false;
+    let mut trouble = 0u128;
+    let mut stalled = false;
+    let mut down = false;
     let mut nominal = Duration::ZERO;
-    'conns: for (a, dt, nreq, times) in conns {
-        nominal += Duration::from_millis(*dt);
+    let mut pending_errs: Option<u64> = None;
+    'evs: for ev in evs {
+        let (a, dt, targets, times) = match ev {
+            Ev::Conn(a, dt, targets, times) => (*a, *dt, targets, *times),
+            Ev::Errs(n) => {
+                pending_errs = Some(pending_errs.unwrap_or(0) + *n);
+                continue;
+            }
+            Ev::Shutdown => {
+                shutdown.shutdown();
+                // the listeners are closed when every accept loop has returned; sequential clients: no connection is open
+                if tokio::time::timeout(Duration::from_secs(20), shutdown.wait()).await.is_err() {
+                    trouble = 3;
+                    break 'evs;
+                }
+                down = true;
+                continue;
+            }
+        };
+        nominal += Duration::from_millis(dt);
         // absolute schedule: never early; lateness is checked
         let due = started + nominal;
         if let Some(wait) = due.checked_duration_since(Instant::now()) {
             tokio::time::sleep(wait).await;
         }
-        let local = Ipv4Addr::new(127, 0, 0, 1 + *a);
-        for k in 0..*times {
+        let local = Ipv4Addr::new(127, 0, 0, 1 + a);
+        for k in 0..times {
             if sc.sensitive && started.elapsed().saturating_sub(nominal) > SERVER_LATE {
-                failed = true;
-                break 'conns;
+                trouble = 1;
+                break 'evs;
             }
-            // the listener binds inside its task: before the first accepted connection a refusal means "not yet"
+            let errs = pending_errs.take().filter(|n| *n > 0);
+            // the socket exists before the descriptors run out
+            let socket = match tokio::net::TcpSocket::new_v4().and_then(|s| s.bind(SocketAddr::new(IpAddr::V4(local), 0)).map(|()| s)) {
+                Ok(s) => s,
+                Err(_) => {
+                    trouble = 3;
+                    break 'evs;
+                }
+            };
+            let my_port = socket.local_addr().map(|a| a.port()).unwrap_or(0);
+            if let Some(n) = errs {
+                #[cfg(feature = "hooks")]
+                {
+                    if down || !inject::arm(n) {
+                        trouble = 3;
+                        break 'evs;
+                    }
+                }
+                #[cfg(not(feature = "hooks"))]
+                {
+                    let _ = n;
+                    trouble = 4;
+                    break 'evs;
+                }
+            }
+            // the listeners are bound before `execute` returns; a refusal before the first accepted connection is
+            // retried for a while all the same (harness trouble if it stays), later it is an observation
             let mut stream = None;
+            let mut reset_at_connect = false;
             let t0 = Instant::now();
+            let mut socket = Some(socket);
             loop {
-                match connect_from(local, port).await {
+                let s = match socket.take() {
+                    Some(s) => s,
+                    None => match tokio::net::TcpSocket::new_v4().and_then(|s| s.bind(SocketAddr::new(IpAddr::V4(local), 0)).map(|()| s)) {
+                        Ok(s) => s,
+                        Err(_) => {
+                            trouble = 3;
+                            break 'evs;
+                        }
+                    },
+                };
+                match connect_socket(s, port).await {
                     Ok(s) => {
                         stream = Some(s);
                         break;
                     }
-                    Err(e) if first && e.kind() == std::io::ErrorKind::ConnectionRefused && t0.elapsed() < Duration::from_secs(3) => {
+                    Err(e) if first && !down && errs.is_none() && e.kind() == std::io::ErrorKind::ConnectionRefused && t0.elapsed() < Duration::from_secs(3) => {
                         tokio::time::sleep(Duration::from_millis(10)).await;
                     }
                     Err(e) if e.kind() == std::io::ErrorKind::ConnectionRefused => break,
-                    Err(_) => {
-                        failed = true;
+                    // the handshake was completed by the kernel and the connection reset before this task looked at it: the
+                    // server closed it at once (dropped at accept), or closed the listener with the connection in its queue
+                    Err(e) if e.kind() == std::io::ErrorKind::ConnectionReset => {
+                        reset_at_connect = true;
                         break;
+                    }
+                    Err(_) => {
+                        trouble = 3;
+                        break 'evs;
                     }
                 }
             }
-            if failed {
-                break 'conns;
+            #[cfg(feature = "hooks")]
+            let mut fewer_failures = false;
+            #[cfg(feature = "hooks")]
+            if let Some(n) = errs {
+                // the loop now runs through its failures (microseconds each); at the n-th the hook gives the descriptors
+                // back.  A loop that ends before (more than the threshold, or whatever the code does) stops counting: then
+                // the harness gives them back and looks at what becomes of the connection.
+                let mut seen = 0;
+                let mut since = Instant::now();
+                while inject::ARMED.load(std::sync::atomic::Ordering::SeqCst) {
+                    let now = inject::FAILS.load(std::sync::atomic::Ordering::SeqCst);
+                    if now != seen {
+                        seen = now;
+                        since = Instant::now();
+                    } else if since.elapsed() > Duration::from_millis(if seen == 0 { 3000 } else { 500 }) {
+                        break;
+                    }
+                    tokio::time::sleep(Duration::from_millis(2)).await;
+                }
+                inject::restore();
+                fewer_failures = inject::FAILS.load(std::sync::atomic::Ordering::SeqCst) < n.min(100);
             }
-            let mut stream = match stream {
+            if reset_at_connect {
+                first = false;
+                #[cfg(feature = "hooks")]
+                let never_accepted = errs.is_some() && !inject::was_accepted(my_port);
+                #[cfg(not(feature = "hooks"))]
+                let never_accepted = false;
+                tokio::time::sleep(Duration::from_millis(40)).await;
+                if never_accepted {
+                    results.push(X::L(vec![X::N(3)]));
+                } else {
+                    #[cfg(feature = "hooks")]
+                    if errs.is_some() && fewer_failures {
+                        trouble = 3;
+                        break 'evs;
+                    }
+                    results.push(X::L(vec![X::N(0), X::L(Vec::new()), X::bool(true)]));
+                }
+                continue;
+            }
+            let stream = match stream {
                 Some(s) => s,
                 None => {
-                    if first {
-                        failed = true; // the server never came up (bind failed): harness trouble, not a verdict
-                        break 'conns;
+                    if first && !down {
+                        trouble = 2; // the server never came up: harness trouble, not a verdict
+                        break 'evs;
                     }
                     results.push(X::L(vec![X::N(3)]));
                     continue;
@@ -417,24 +763,49 @@ async fn serve_once(sc: &SConf, conns: &[(u8, u64, u64, u64)]) -> Option<X> {
             first = false;
             let mut statuses = Vec::new();
             let mut cut = false;
-            for _ in 0..*nreq {
-                match exchange(&mut stream).await {
+            let mut client = match Client::open(stream, secure, deadline).await {
+                Ok(c) => c,
+                Err(_) => {
+                    results.push(X::L(vec![X::N(4), X::L(Vec::new())]));
+                    stalled = true;
+                    break 'evs;
+                }
+            };
+            for target in targets.iter() {
+                match client.exchange(&host_name(*target), deadline).await {
                     Answer::Status(s) => statuses.push(X::n(s)),
                     Answer::Cut => {
                         cut = true;
                         break;
                     }
                     Answer::Stalled => {
-                        failed = true;
+                        stalled = true;
                         break;
                     }
                 }
             }
-            drop(stream);
-            if failed {
-                break 'conns;
+            drop(client);
+            if stalled {
+                results.push(X::L(vec![X::N(4), X::L(statuses)]));
+                break 'evs;
             }
-            if cut && k + 1 == *times {
+            #[cfg(feature = "hooks")]
+            if errs.is_some() {
+                if cut && statuses.is_empty() && !inject::was_accepted(my_port) {
+                    // the kernel completed the handshake, but accept() never returned this connection and it was reset when
+                    // the listener was closed: nobody accepted it
+                    tokio::time::sleep(Duration::from_millis(40)).await;
+                    results.push(X::L(vec![X::N(3)]));
+                    continue;
+                }
+                if fewer_failures {
+                    // the loop lives and accept() did not fail as often as wanted (it was not called in time): not executed
+                    trouble = 3;
+                    break 'evs;
+                }
+            }
+            let _ = my_port;
+            if cut && k + 1 == times {
                 // let a listener that is about to close finish closing, so that "refused" is stable
                 // (inside a flood of identical connections only after the last one)
                 tokio::time::sleep(Duration::from_millis(40)).await;
@@ -442,24 +813,56 @@ async fn serve_once(sc: &SConf, conns: &[(u8, u64, u64, u64)]) -> Option<X> {
             results.push(X::L(vec![X::N(0), X::L(statuses), X::bool(cut)]));
         }
     }
-    // is anybody still accepting?  (made after everything that is compared)
-    let alive = if failed { false } else { connect_from(Ipv4Addr::new(127, 0, 0, 200), port).await.is_ok() };
-    shutdown.shutdown();
-    let _ = tokio::time::timeout(Duration::from_secs(2), shutdown.wait()).await;
-    if failed {
-        return None;
+    // is anybody still accepting?  (made after everything that is compared)  A connection from an address that has
+    // not been seen gets some reaction — an answer or a close — from a loop that still accepts; a loop that is
+    // blocked leaves it in the backlog without any.
+    let alive = if trouble != 0 || stalled {
+        0
+    } else {
+        match connect_from(Ipv4Addr::new(127, 0, 0, 200), port).await {
+            Ok(s) => match Client::open(s, secure, deadline).await {
+                Ok(mut c) => match c.exchange(HOSTNAME, deadline).await {
+                    Answer::Status(_) | Answer::Cut => 1u128,
+                    Answer::Stalled => 4,
+                },
+                Err(_) => 4,
+            },
+            Err(_) => 0,
+        }
+    };
+    #[cfg(feature = "hooks")]
+    inject::restore();
+    if !down {
+        shutdown.shutdown();
+        let _ = tokio::time::timeout(Duration::from_secs(2), shutdown.wait()).await;
     }
-    Some(X::L(vec![X::L(results), X::bool(alive)]))
+    drop(reservation);
+    if trouble != 0 {
+        return Attempt::Trouble(trouble);
+    }
+    let out = X::L(vec![X::L(results), X::N(if stalled { 4 } else { alive })]);
+    if stalled || alive == 4 {
+        Attempt::Stalled(out)
+    } else {
+        Attempt::Done(out)
+    }
 }
 
-/// input: (L checked (L (N path) cfg pre (N bind)) (L (L (N addr_index) (N wait_ms) (N nreq) [(N times)]) ...))
-/// output: (L (L result ...) alive), result = (L (N 3)) refused | (L (N 0) (L status ...) cut)
-pub fn server(x: &X) -> X {
+/// Histories on which the server stopped reacting in this process (they are not tried three times again).
+static CONFIRMED_STALLS: AtomicU32 = AtomicU32::new(0);
+
+/// input: (L checked (L (N path) cfg pre (N bind)) (L event ...))
+///   event: (L (N addr_index) (N wait_ms) (N nreq) [(N times)])  a connection (repeated `times` times)
+///          (L (N 200) (N n))   [with_events] the next n calls of accept() fail
+///          (L (N 201))         [with_events] shutdown
+/// output: (L (L result ...) alive), result = (L (N 3)) refused | (L (N 0) (L status ...) cut) |
+///         (L (N 4) (L status ...)) no reaction (the history ends there); alive: 1 | 0 | 4 (no reaction)
+pub fn server(x: &X, with_events: bool, with_hosts: bool) -> X {
     let l = match x.as_l() { Some(l) if l.len() == 3 => l, _ => return X::bad() };
     if l[0].as_bool().is_none() {
         return X::bad();
     }
-    let s = match l[1].as_l() { Some(s) if s.len() == 4 => s, _ => return X::bad() };
+    let s = match l[1].as_l() { Some(s) if s.len() == if with_hosts { 5 } else { 4 } => s, _ => return X::bad() };
     let path = match s[0].as_n() { Some(p) if p <= 1 => p, _ => return X::bad() };
     let (max, ce, reset, finite) = match config(&s[1]) { Some(c) => c, None => return X::bad() };
     let mut sensitive = is_sensitive(finite);
@@ -474,32 +877,294 @@ pub fn server(x: &X) -> X {
         },
         _ => return X::bad(),
     };
-    let bind = match s[3].as_n() { Some(b) if b <= 2 => b, _ => return X::bad() };
-    let sc = SConf { path, host: (max, ce, reset), pre, bind, sensitive };
-    let mut conns = Vec::new();
+    let bind = match s[3].as_n() { Some(b) if b <= 3 => b, _ => return X::bad() };
+    if with_hosts && bind == 3 {
+        // over TLS the host is chosen by the SNI name of the connection, not per request: not expressible here
+        return X::L(vec![X::N(96)]);
+    }
+    let mut extra = Vec::new();
+    if with_hosts {
+        for c in match s[4].as_l() { Some(c) => c, None => return X::bad() } {
+            match config(c) {
+                Some((m, e, r, f)) => {
+                    sensitive |= is_sensitive(f);
+                    extra.push((m, e, r));
+                }
+                None => return X::bad(),
+            }
+        }
+        if extra.len() > 90 {
+            return X::L(vec![X::N(96)]);
+        }
+    }
+    let sc = SConf { path, host: (max, ce, reset), pre, bind, sensitive, extra };
+    let mut evs = Vec::new();
     for e in match l[2].as_l() { Some(e) => e, None => return X::bad() } {
         match e.as_l() {
             // a connection without a request cannot tell "dropped" from "waiting": not expressible
-            Some([X::N(a), X::N(dt), X::N(n)]) if *a < 100 && *n >= 1 && *n < 1000 => conns.push((*a as u8, *dt as u64, *n as u64, 1)),
-            Some([X::N(a), X::N(dt), X::N(n), X::N(k)]) if *a < 100 && *n >= 1 && *n < 1000 && *k < 5000 => {
-                conns.push((*a as u8, *dt as u64, *n as u64, *k as u64))
+            Some([X::N(a), X::N(dt), X::N(n)]) if !with_hosts && *a < 100 && *n >= 1 && *n < 1000 => {
+                evs.push(Ev::Conn(*a as u8, *dt as u64, vec![0; *n as usize], 1))
             }
+            Some([X::N(a), X::N(dt), X::N(n), X::N(k)]) if !with_hosts && *a < 100 && *n >= 1 && *n < 1000 && *k < 5000 => {
+                evs.push(Ev::Conn(*a as u8, *dt as u64, vec![0; *n as usize], *k as u64))
+            }
+            Some([X::N(a), X::N(dt), X::L(tgs)]) if with_hosts && *a < 100 && !tgs.is_empty() && tgs.len() < 1000 => {
+                let mut targets = Vec::new();
+                for t in tgs {
+                    match t {
+                        // a name of a host that is not there is the unknown host
+                        X::N(t) if *t == 99 || (*t as usize) <= sc.extra.len() => targets.push(*t as u8),
+                        X::N(t) if *t < 90 => targets.push(99),
+                        _ => return X::L(vec![X::N(96)]),
+                    }
+                }
+                evs.push(Ev::Conn(*a as u8, *dt as u64, targets, 1))
+            }
+            Some([X::N(200), X::N(n)]) if with_events && *n <= 100_000 => evs.push(Ev::Errs(*n as u64)),
+            Some([X::N(201)]) if with_events => evs.push(Ev::Shutdown),
             _ => return X::L(vec![X::N(96)]),
         }
     }
-    for _attempt in 0..3 {
-        if let Some(r) = runtime().block_on(serve_once(&sc, &conns)) {
-            return r;
+    // accept errors only happen when accept() is called: they need a connection after them, on the one IPv4 listener
+    for (i, e) in evs.iter().enumerate() {
+        if let Ev::Errs(_) = e {
+            let next_is_conn = evs[i + 1..].iter().find(|e| !matches!(e, Ev::Errs(_))).map_or(false, |e| matches!(e, Ev::Conn(..)));
+            if !next_is_conn || (bind != 0 && bind != 3) || !cfg!(feature = "hooks") {
+                return X::L(vec![X::N(96)]);
+            }
         }
     }
-    X::L(vec![X::N(96), X::N(1)])
+    let mut last_trouble = 1;
+    let mut last_stall = None;
+    let attempts: &[u64] = if CONFIRMED_STALLS.load(Ordering::Relaxed) >= 2 { &[8] } else { &[8, 12, 20] };
+    for secs in attempts {
+        match runtime().block_on(serve_once(&sc, &evs, Duration::from_secs(*secs))) {
+            Attempt::Done(r) => return r,
+            Attempt::Stalled(r) => last_stall = Some(r),
+            Attempt::Trouble(t) => {
+                last_trouble = t;
+                last_stall = None;
+            }
+        }
+    }
+    match last_stall {
+        // the server did not react, every time, with growing patience: an observation about the server
+        Some(r) => {
+            CONFIRMED_STALLS.fetch_add(1, Ordering::Relaxed);
+            r
+        }
+        // the harness could not run the case: never a verdict (the runner tries again and counts what stays)
+        None => X::L(vec![X::N(96), X::N(last_trouble)]),
+    }
+}
+
+/// Concurrent clients on a real server: 127.0.0.1 floods over `parallel` connections at a time while every bystander
+/// (127.0.0.2, .3, ...) makes its few connections at the same moment; the accept loop and the connection tasks
+/// call `register` from the runtime's worker threads concurrently.
+/// input : (L checked sconf (L (N flood_conns) (N flood_reqs) (N parallel)) (L (L (N nconn) (N nreq)) ...))
+/// output: (L (L (L result ...) ...per bystander...) alive)   (what the flooder receives depends on the interleaving)
+async fn par_once(sc: &SConf, flood: (u64, u64, u64), bystanders: &[(u64, u64)], deadline: Duration) -> Attempt {
+    let Some(reservation) = reserve_port() else { return Attempt::Trouble(2) };
+    let port = reservation.port;
+    let mut ext = Extensions::empty();
+    ext.add_prepare_single("/", kvarn::prepare!(_, _, _, _, { FatResponse::no_cache(Response::new(Bytes::from_static(b"ok"))) }));
+    let mut host = Host::unsecure(HOSTNAME, "/nonexistent/kvh-c12", ext, host::Options::default());
+    host.disable_fs_cache().disable_response_cache();
+    match sc.path {
+        0 => host.limiter = LimitManager::new(sc.host.0, sc.host.1, sc.host.2),
+        _ => apply_setters(&mut host.limiter, sc.host),
+    }
+    let pre = match sc.pre {
+        None => None,
+        Some((false, c)) => Some(LimitManager::new(c.0, c.1, c.2)),
+        Some((true, c)) => {
+            let mut m = host.limiter.clone();
+            apply_setters(&mut m, c);
+            Some(m)
+        }
+    };
+    let mut builder = HostCollection::builder().insert(host);
+    if let Some(pre) = pre {
+        builder = builder.set_pre_host_limiter(pre);
+    }
+    let mut descriptor = PortDescriptor::unsecure(port, builder.build());
+    descriptor = match sc.bind {
+        0 => descriptor.ipv4_only(),
+        2 => descriptor.ipv6_only(),
+        _ => descriptor,
+    };
+    let shutdown = RunConfig::new().bind(descriptor).disable_ctl().execute().await;
+    // the server is up when somebody gets a reaction (this probe address is nobody's)
+    let t0 = Instant::now();
+    loop {
+        match connect_from(Ipv4Addr::new(127, 0, 0, 201), port).await {
+            Ok(_) => break,
+            Err(_) if t0.elapsed() < Duration::from_secs(3) => tokio::time::sleep(Duration::from_millis(10)).await,
+            Err(_) => {
+                shutdown.shutdown();
+                return Attempt::Trouble(2);
+            }
+        }
+    }
+    let mut flooders = Vec::new();
+    for _ in 0..flood.2 {
+        flooders.push(tokio::spawn(async move {
+            for _ in 0..flood.0 {
+                if let Ok(mut s) = connect_from(Ipv4Addr::new(127, 0, 0, 1), port).await {
+                    for _ in 0..flood.1 {
+                        match exchange(&mut s, HOSTNAME, deadline).await {
+                            Answer::Status(_) => {}
+                            _ => break,
+                        }
+                    }
+                }
+            }
+        }));
+    }
+    let mut watchers = Vec::new();
+    for (i, (nconn, nreq)) in bystanders.iter().enumerate() {
+        let (nconn, nreq) = (*nconn, *nreq);
+        let local = Ipv4Addr::new(127, 0, 0, 2 + i as u8);
+        watchers.push(tokio::spawn(async move {
+            let mut results = Vec::new();
+            let mut trouble = false;
+            let mut stalled = false;
+            for _ in 0..nconn {
+                tokio::time::sleep(Duration::from_millis(3)).await;
+                let mut stream = match connect_from(local, port).await {
+                    Ok(s) => s,
+                    Err(e) if e.kind() == std::io::ErrorKind::ConnectionRefused => {
+                        results.push(X::L(vec![X::N(3)]));
+                        continue;
+                    }
+                    Err(_) => {
+                        trouble = true;
+                        break;
+                    }
+                };
+                let mut statuses = Vec::new();
+                let mut cut = false;
+                for _ in 0..nreq {
+                    match exchange(&mut stream, HOSTNAME, deadline).await {
+                        Answer::Status(s) => statuses.push(X::n(s)),
+                        Answer::Cut => {
+                            cut = true;
+                            break;
+                        }
+                        Answer::Stalled => {
+                            stalled = true;
+                            break;
+                        }
+                    }
+                }
+                if stalled {
+                    results.push(X::L(vec![X::N(4), X::L(statuses)]));
+                    break;
+                }
+                results.push(X::L(vec![X::N(0), X::L(statuses), X::bool(cut)]));
+            }
+            (results, trouble, stalled)
+        }));
+    }
+    let mut out = Vec::new();
+    let mut trouble = false;
+    let mut stalled = false;
+    for w in watchers {
+        match w.await {
+            Ok((r, t, s)) => {
+                out.push(X::L(r));
+                trouble |= t;
+                stalled |= s;
+            }
+            Err(_) => trouble = true,
+        }
+    }
+    for f in flooders {
+        let _ = f.await;
+    }
+    let alive = if trouble {
+        0
+    } else {
+        match connect_from(Ipv4Addr::new(127, 0, 0, 200), port).await {
+            Ok(mut s) => match exchange(&mut s, HOSTNAME, deadline).await {
+                Answer::Status(_) | Answer::Cut => 1u128,
+                Answer::Stalled => 4,
+            },
+            Err(_) => 0,
+        }
+    };
+    shutdown.shutdown();
+    let _ = tokio::time::timeout(Duration::from_secs(2), shutdown.wait()).await;
+    drop(reservation);
+    if trouble {
+        return Attempt::Trouble(3);
+    }
+    let x = X::L(vec![X::L(out), X::N(alive)]);
+    if stalled || alive == 4 {
+        Attempt::Stalled(x)
+    } else {
+        Attempt::Done(x)
+    }
+}
+
+pub fn server_par(x: &X) -> X {
+    let l = match x.as_l() { Some(l) if l.len() == 4 => l, _ => return X::bad() };
+    if l[0].as_bool().is_none() {
+        return X::bad();
+    }
+    let s = match l[1].as_l() { Some(s) if s.len() == 4 => s, _ => return X::bad() };
+    let path = match s[0].as_n() { Some(p) if p <= 1 => p, _ => return X::bad() };
+    let (max, ce, reset, f0) = match config(&s[1]) { Some(c) => c, None => return X::bad() };
+    let _ = f0;
+    let mut limit = max;
+    let pre = match s[2].as_l() {
+        Some([]) => None,
+        Some([X::N(k), c]) if *k <= 1 => match config(c) {
+            Some((m, e, r, _)) => {
+                limit = limit.min(m);
+                Some((*k == 1, (m, e, r)))
+            }
+            None => return X::bad(),
+        },
+        _ => return X::bad(),
+    };
+    let bind = match s[3].as_n() { Some(b) if b <= 2 => b, _ => return X::bad() };
+    let sc = SConf { path, host: (max, ce, reset), pre, bind, sensitive: false, extra: Vec::new() };
+    let flood = match l[2].as_l() {
+        Some([X::N(c), X::N(r), X::N(p)]) if *c <= 5000 && *r >= 1 && *r <= 100 && *p >= 1 && *p <= 32 => (*c as u64, *r as u64, *p as u64),
+        _ => return X::bad(),
+    };
+    let mut bystanders = Vec::new();
+    for b in match l[3].as_l() { Some(b) if b.len() <= 50 => b, _ => return X::bad() } {
+        match b.as_l() {
+            // a bystander stays within every maximum with all its calls (accept + requests)
+            Some([X::N(c), X::N(r)]) if *r >= 1 && *c <= 1000 && *r <= 1000 && (*c * (1 + *r)) as usize <= limit => bystanders.push((*c as u64, *r as u64)),
+            _ => return X::L(vec![X::N(96)]),
+        }
+    }
+    let mut last_trouble = 2;
+    let mut last_stall = None;
+    for secs in [10u64, 20, 30] {
+        match runtime().block_on(par_once(&sc, flood, &bystanders, Duration::from_secs(secs))) {
+            Attempt::Done(r) => return r,
+            Attempt::Stalled(r) => last_stall = Some(r),
+            Attempt::Trouble(t) => {
+                last_trouble = t;
+                last_stall = None;
+            }
+        }
+    }
+    last_stall.unwrap_or_else(|| X::L(vec![X::N(96), X::N(last_trouble)]))
 }
 
 pub fn dispatch(comp: &str, x: &X) -> Option<X> {
     Some(match comp {
-        "limiter.register" => register(x),
+        "limiter.register" | "limiter.concseq" => register(x),
         "limiter.ops" => ops(x),
-        "limiter.server" => server(x),
+        "limiter.server" => server(x, false, false),
+        "limiter.server_ev" => server(x, true, false),
+        "limiter.hosts" => server(x, true, true),
+        "limiter.server_par" => server_par(x),
         _ => return None,
     })
 }
